@@ -17,6 +17,7 @@ RULE = ("random sessions of 1..30 messages over 1..3 documents with the real `uc
         "text <=> there is exactly one diagnostic and it starts at (line-1, column-1) of the parser's error; (5) a "
         "final text that `ucg build` builds in a copy of the workspace has no diagnostics. distinct = distinct "
         "sessions; non-trivial = >= 3 messages incl. a change.")
+RULE += (" " + 'Also: the on-disk library is opened / edited (also into unparsable text) / closed during sessions and exists in 8 variants on disk; documents import other session documents that exist only in the editor (closed before the final comparison, importers touched); 30 % of the sessions sweep every character position of one document with completion / hover / definition.')
 
 LIB = "let traceid = 1;\nlet val = 7;\nlet mk = func (x) => {v = x, s = \"s\"};\nlet cfg = {host = \"h\", port = 80};\n"
 
